@@ -369,7 +369,9 @@ class StatefulModel(BaseModel):
                 current_value.shape,
             )
             # TODO: WeightedTensor? (e.g. batched `deltas``)
-            assert torch.allclose(parameter_value, current_value, atol=1e-4), (
+            assert torch.allclose(
+                parameter_value, current_value, atol=1e-4, equal_nan=True
+            ), (
                 parameter_name,
                 parameter_value,
                 current_value,
